@@ -18,9 +18,9 @@ static double const U_ = double(std::numeric_limits<R>::epsilon()) / 2;
 // results in the subnormal range of a_real carry absolute, not relative precision
 static double const FLOOR_ = sizeof(R) == 8 ? 1e-300 : 4 * double(std::numeric_limits<R>::denorm_min());
 
-enum { L_P3, L_P5, L_P7, L_ALL_NONZERO, L_T_POW2, L_T_REAL, L_T_SMALL, L_T_LARGE, L_INT_DATA, L_REAL_DATA, L_POLY, L_POLY_N0, L_POLY_N1, L_QUERY_OUTSIDE, L_J0_NE_J1 };
+enum { L_P3, L_P5, L_P7, L_ALL_NONZERO, L_T_POW2, L_T_REAL, L_T_SMALL, L_T_LARGE, L_INT_DATA, L_REAL_DATA, L_POLY, L_POLY_N0, L_POLY_N1, L_QUERY_OUTSIDE, L_J0_NE_J1, L_NEAR_DEGENERATE };
 static char const *const labels[] = {"cubic", "quintic", "septic", "all_boundary_derivatives_nonzero", "duration_power_of_two", "duration_real", "duration_lt_1/16", "duration_gt_16",
-                                     "integer_boundary_data", "real_boundary_data", "poly_eval_evar_swap", "poly_n_0", "poly_n_1", "query_outside_0_T", "j0_ne_j1", nullptr};
+                                     "integer_boundary_data", "real_boundary_data", "poly_eval_evar_swap", "poly_n_0", "poly_n_1", "query_outside_0_T", "j0_ne_j1", "boundary_data_of_a_lower_degree_motion_perturbed", nullptr};
 static char const *const metrics[] = {"max_end_value_error_over_u_scale", "max_coefficient_error_over_u_scale", "max_horner_error_over_bound", nullptr};
 static uint8_t const dict[] = {3, 5, 7, 10, 20};
 static vp_info const info = {"C15", "poly", "", labels, metrics, 128, dict, sizeof(dict)};
@@ -129,7 +129,9 @@ static void case_traj(Tape &t, Ctx &cx, unsigned m)
 {
     R T = gen_T(t, cx);
     bool ints = t.coin();
-    bool allnz = (t.u8() % 4) != 0;
+    uint8_t ab = t.u8();
+    bool allnz = (ab % 4) != 0;
+    bool neardeg = (ab / 4) % 4 == 0;
     R d0[4] = {0, 0, 0, 0}, d1[4] = {0, 0, 0, 0};
     for (unsigned k = 0; k < m; ++k)
     {
@@ -137,6 +139,27 @@ static void case_traj(Tape &t, Ctx &cx, unsigned m)
         d1[k] = gen_val(t, ints, allnz);
         if (!allnz && t.u8() % 3 == 0) { d0[k] = 0; }
         if (!allnz && t.u8() % 3 == 0) { d1[k] = 0; }
+    }
+    if (neardeg)
+    {
+        // nearly degenerate request: the boundary data of a motion of lower degree q (rest, uniform motion, constant acceleration,
+        // constant jerk), one datum then moved by a relative 10^-1 .. 10^-15 - or not at all
+        unsigned q = t.u8() % 4;
+        long double cq[4] = {0, 0, 0, 0};
+        for (unsigned i = 0; i <= q; ++i) { cq[i] = (i == 0 && t.coin()) ? 0.0L : (long double)gen_val(t, ints, true); }
+        long double TT = (long double)T;
+        long double at0[4] = {cq[0], cq[1], 2 * cq[2], 6 * cq[3]};
+        long double atT[4] = {cq[0] + TT * (cq[1] + TT * (cq[2] + TT * cq[3])), cq[1] + TT * (2 * cq[2] + TT * 3 * cq[3]), 2 * cq[2] + TT * 6 * cq[3], 6 * cq[3]};
+        for (unsigned k = 0; k < m; ++k) { d0[k] = R(at0[k]); d1[k] = R(atT[k]); }
+        uint8_t pb = t.u8();
+        if (pb % 4)
+        {
+            unsigned k = (pb / 4) % m;
+            R &d = (pb & 128) ? d0[k] : d1[k];
+            long double rel = powl(10.0L, -1.0L - (long double)(t.u8() % 15));
+            d = R((long double)d * (1 + (t.coin() ? rel : -rel)));
+        }
+        cx.label(L_NEAR_DEGENERATE);
     }
     cx.label(ints ? L_INT_DATA : L_REAL_DATA);
     cx.label(m == 2 ? L_P3 : m == 3 ? L_P5 : L_P7);
